@@ -39,6 +39,17 @@ def trange(t):
     return (-(1 << (b - 1)), (1 << (b - 1)) - 1) if is_signed(t) else (0, (1 << b) - 1)
 
 
+# opt-in generator features for the C01 engine (the default feature set is unchanged, so the programs that the
+# C02 / C03 corpora draw from a seed stay the same):
+#   safe_narrow  values stored into / passed as / returned as a signed type narrower than 64 bits are mostly
+#                reduced with `% m` first, so that fewer executions end in an implementation-defined conversion
+#   call_stmts   calls of generated functions mostly as `T v = f(leaf, ...);` statements, rarely inside larger
+#                expressions, so that fewer executions depend on an unspecified evaluation order
+DEFAULT_FEATURES = {"arrays", "structs", "pointers", "switch", "calls", "extern", "loops",
+                    "shortcircuit", "cond", "casts", "compound", "div", "shift"}
+C01_FEATURES = DEFAULT_FEATURES | {"safe_narrow", "call_stmts"}
+
+
 class Gen:
     def __init__(self, rng, max_funcs=3, max_stmts=8, max_depth=3, types=None, features=None):
         self.r = rng
@@ -46,8 +57,7 @@ class Gen:
         self.max_stmts = max_stmts
         self.max_depth = max_depth
         self.types = types or TYPES
-        self.feat = features or {"arrays", "structs", "pointers", "switch", "calls", "extern", "loops",
-                                 "shortcircuit", "cond", "casts", "compound", "div", "shift"}
+        self.feat = features or DEFAULT_FEATURES
         self.uid = 0
 
     def name(self, p):
@@ -56,6 +66,26 @@ class Gen:
 
     def pick_type(self):
         return self.r.choice(self.types)
+
+    def fit(self, e, ty):
+        """(safe_narrow) make the value fit the signed type ty without changing the type discipline under test."""
+        if "safe_narrow" not in self.feat or not is_signed(ty) or BITS[ty] == 64 or self.r.random() < 0.12:
+            return e
+        return {"k": "bin", "op": "%", "a": e, "b": {"k": "lit", "ty": "i32", "v": {8: 100, 16: 30000, 32: 2000000000}[BITS[ty]]}}
+
+    def lv_type(self, lv):
+        k = lv["k"]
+        if k == "var":
+            vs = self.vars_in_scope()
+            if lv["n"] in vs:
+                return vs[lv["n"]]
+            return [g for g in self.globals if g["n"] == lv["n"]][0]["ty"]
+        if k == "idx":
+            return [g for g in self.globals + self.local_arrays if g["n"] == lv["a"]][0]["ty"]
+        if k == "fld":
+            g = [g for g in self.globals if g["n"] == lv["s"]][0]
+            return [f for f in g["struct"] if f["f"] == lv["f"]][0]["ty"]
+        return self.ptrs[0]["ty"]
 
     def lit(self, ty=None):
         r = self.r
@@ -112,6 +142,7 @@ class Gen:
             a = r.choice(arrays)
             ptr_param = {"n": self.name("q"), "ty": a["ty"], "ptr": True, "len": a["len"]}
         ret = self.pick_type()
+        self.cur_ret = ret
         self.scope = [dict((p["n"], p["ty"]) for p in params)]
         self.ptrs = [ptr_param] if ptr_param else []
         self.local_arrays = []
@@ -119,7 +150,7 @@ class Gen:
         self.cur_index = k
         self.in_switch = 0
         body = self.block(self.max_stmts, 0)
-        body.append({"k": "ret", "e": self.expr(self.max_depth)})
+        body.append({"k": "ret", "e": self.fit(self.expr(self.max_depth), ret)})
         f = {"n": "f%d" % k, "ret": ret, "params": params + ([ptr_param] if ptr_param else []), "body": body}
         return f
 
@@ -202,11 +233,19 @@ class Gen:
             kinds.append("declarr")
         if r.random() < 0.08:
             kinds.append("ret")
+        if "call_stmts" in self.feat and "calls" in self.feat and self.cur_index > 0:
+            kinds += ["calldecl", "calldecl"]
         k = r.choice(kinds)
         D = self.max_depth
         if k == "decl":
             ty = self.pick_type()
-            e = self.expr(D)
+            e = self.fit(self.expr(D), ty)
+            n = self.name("v")
+            self.scope[-1][n] = ty
+            return {"k": "decl", "n": n, "ty": ty, "e": e}
+        if k == "calldecl":
+            ty = self.pick_type()
+            e = self.fit(self.call_expr(0), ty)
             n = self.name("v")
             self.scope[-1][n] = ty
             return {"k": "decl", "n": n, "ty": ty, "e": e}
@@ -219,6 +258,9 @@ class Gen:
             return {"k": "declarr", "n": n, "ty": ty, "len": ln,
                     "init": [r.randrange(max(lo, -9), min(hi, 40)) for _ in range(ln)]}
         if k == "asg":
+            if "safe_narrow" in self.feat:
+                lv = self.lvalue(D - 1)
+                return {"k": "asg", "lhs": lv, "op": "=", "e": self.fit(self.expr(D), self.lv_type(lv))}
             return {"k": "asg", "lhs": self.lvalue(D - 1), "op": "=", "e": self.expr(D)}
         if k == "casg":
             ops = ["+=", "-=", "*=", "&=", "|=", "^="]
@@ -290,9 +332,9 @@ class Gen:
             return {"k": "if", "c": self.cond(2), "t": [{"k": "continue"}], "f": []}
         if k == "extcall":
             x = r.choice(self.externs)
-            return {"k": "expr", "e": {"k": "call", "f": x["n"], "args": [self.expr(D - 1) for _ in x["args"]]}}
+            return {"k": "expr", "e": {"k": "call", "f": x["n"], "args": [self.fit(self.expr(D - 1), t) for t in x["args"]]}}
         if k == "ret":
-            return {"k": "if", "c": self.cond(2), "t": [{"k": "ret", "e": self.expr(D)}], "f": []}
+            return {"k": "if", "c": self.cond(2), "t": [{"k": "ret", "e": self.fit(self.expr(D), self.cur_ret)}], "f": []}
         raise AssertionError(k)
 
     def in_switch_only(self):
@@ -342,21 +384,25 @@ class Gen:
             return {"k": "un", "op": r.choice(["-", "~", "!"]), "a": self.expr(depth - 1)}
         if c < 0.88 and "cond" in self.feat:
             return {"k": "cond", "c": self.cond(depth - 1), "a": self.expr(depth - 1), "b": self.expr(depth - 1)}
-        if c < 0.97 and "calls" in self.feat and self.cur_index > 0:
-            f = self.r.choice(self.funcs[: self.cur_index])
-            args = []
-            for p in f["params"]:
-                if p.get("ptr"):
-                    cands = [g for g in self.globals if g.get("len") == p["len"] and g["ty"] == p["ty"]]
-                    a = r.choice(cands)
-                    args.append({"k": "addr", "a": a["n"], "e": {"k": "lit", "ty": "i32", "v": 0}})
-                else:
-                    args.append(self.expr(depth - 1))
-            return {"k": "call", "f": f["n"], "args": args}
+        if c < (0.91 if "call_stmts" in self.feat else 0.97) and "calls" in self.feat and self.cur_index > 0:
+            return self.call_expr(depth - 1)
         if "extern" in self.feat and self.externs and r.random() < 0.5:
             x = r.choice(self.externs)
-            return {"k": "call", "f": x["n"], "args": [self.expr(depth - 1) for _ in x["args"]]}
+            return {"k": "call", "f": x["n"], "args": [self.fit(self.expr(depth - 1), t) for t in x["args"]]}
         return self.leaf()
+
+    def call_expr(self, depth):
+        r = self.r
+        f = self.r.choice(self.funcs[: self.cur_index])
+        args = []
+        for p in f["params"]:
+            if p.get("ptr"):
+                cands = [g for g in self.globals if g.get("len") == p["len"] and g["ty"] == p["ty"]]
+                a = r.choice(cands)
+                args.append({"k": "addr", "a": a["n"], "e": {"k": "lit", "ty": "i32", "v": 0}})
+            else:
+                args.append(self.fit(self.expr(depth), p["ty"]))
+        return {"k": "call", "f": f["n"], "args": args}
 
     def leaf(self):
         r = self.r
